@@ -214,6 +214,7 @@ func LexAll(src io.Reader, spec LexSpec) *LexResult {
 	if spec.ReuseBuf {
 		buf = make([]byte, 0, 64)
 	}
+	var firstErr error
 	pi = Guard(func() {
 		for {
 			if spec.MaxTokens > 0 && res.Tokens >= spec.MaxTokens {
@@ -235,8 +236,22 @@ func LexAll(src io.Reader, spec LexSpec) *LexResult {
 				continue
 			}
 			if err != nil {
-				res.Err = err
-				return
+				// the first error ends the read; a polling consumer calls a few more times
+				if res.Err == nil {
+					res.Err, firstErr = err, err
+					if errors.Is(err, io.EOF) {
+						return
+					}
+				} else {
+					res.Again = append(res.Again, againOutcome(err))
+				}
+				if len(res.Again) >= spec.AgainAfterErr {
+					return
+				}
+				continue
+			}
+			if res.Err != nil {
+				res.Again = append(res.Again, "data")
 			}
 			kind, ok := tokenKinds[tt]
 			if !ok {
@@ -300,22 +315,16 @@ func LexAll(src io.Reader, spec LexSpec) *LexResult {
 				r = &model.Rec{Kind: kind, Data: clone(rec)}
 			}
 			res.Recs = append(res.Recs, r)
+			if res.Err != nil && len(res.Again) >= spec.AgainAfterErr {
+				return
+			}
 		}
 	})
 	res.Panic = pi
-	if pi == nil && spec.AgainAfterErr > 0 && res.Err != nil && !errors.Is(res.Err, io.EOF) && !strings.HasPrefix(res.Err.Error(), "harness") {
-		for i := 0; i < spec.AgainAfterErr; i++ {
-			out := "data"
-			if p2 := Guard(func() {
-				_, _, err := lexer.Next(nil)
-				if err != nil {
-					out = againOutcome(err)
-				}
-			}); p2 != nil {
-				out = "panic: " + p2.String()
-			}
-			res.Again = append(res.Again, out)
-		}
+	if firstErr != nil && res.Err.Error() != firstErr.Error() {
+		// a token handed out after the read had failed could not even be parsed
+		res.Again = append(res.Again, "garbage: "+res.Err.Error())
+		res.Err = firstErr
 	}
 	for _, k := range keep {
 		if string(k.live) != string(k.copy) {
@@ -496,8 +505,21 @@ func Iterate(it mcap.MessageIterator, mode string, max int, res *IterResult, aft
 				panic("harness: unknown next mode " + mode)
 			}
 			if err != nil {
-				res.Err = err
-				return
+				if res.Err == nil {
+					res.Err = err
+					if errors.Is(err, io.EOF) {
+						return
+					}
+				} else {
+					res.Again = append(res.Again, againOutcome(err))
+				}
+				if len(res.Again) >= res.AgainCalls {
+					return
+				}
+				continue
+			}
+			if res.Err != nil {
+				res.Again = append(res.Again, "data")
 			}
 			if m == nil || c == nil {
 				res.Err = fmt.Errorf("harness-observed: iterator returned nil message/channel without error")
@@ -508,6 +530,9 @@ func Iterate(it mcap.MessageIterator, mode string, max int, res *IterResult, aft
 				kept = append(kept, keptMsg{idx: len(res.Msgs), s: s, c: c, m: m, snapshot: r})
 			}
 			res.Msgs = append(res.Msgs, r)
+			if res.Err != nil && len(res.Again) >= res.AgainCalls {
+				return
+			}
 			if after != nil {
 				if e := after(len(res.Msgs)); e != nil {
 					res.Err = e
@@ -517,20 +542,6 @@ func Iterate(it mcap.MessageIterator, mode string, max int, res *IterResult, aft
 		}
 	})
 	res.Panic = pi
-	if pi == nil && res.AgainCalls > 0 && res.Err != nil && !errors.Is(res.Err, io.EOF) && !strings.HasPrefix(res.Err.Error(), "harness") {
-		for i := 0; i < res.AgainCalls; i++ {
-			out := "data"
-			if p2 := Guard(func() {
-				_, _, _, err := it.NextInto(nil)
-				if err != nil {
-					out = againOutcome(err)
-				}
-			}); p2 != nil {
-				out = "panic: " + p2.String()
-			}
-			res.Again = append(res.Again, out)
-		}
-	}
 	for _, k := range kept {
 		now := tripleRec(k.s, k.c, k.m)
 		if d := model.Diff(k.snapshot, now); d != "" {
